@@ -7,7 +7,44 @@ COMM = {'add', 'mul'}
 F_OPS = {'add': 'add', 'mul': 'mul', 'matmul': 'matmul', 'pow': 'pow', 'rpow': 'rpow', 'neg': 'neg', 'slice': 'slice', 'addmm': 'addmm'}
 
 
-def tree(e, model=None, mod=None, params=()):
+def _inline_method(e, model, mod, cls):
+    """self.helper(args) where helper is a method of cls with a single return statement: its return expression with the
+    parameters replaced by the argument expressions (private helper extraction is behaviour preserving)"""
+    import copy
+    if cls is None or not (isinstance(e.func, ast.Attribute) and isinstance(e.func.value, ast.Name) and e.func.value.id == 'self'):
+        return None
+    m = cls.methods.get(e.func.attr)
+    if m is None:
+        return None
+    body = [s for s in m.node.body if not (isinstance(s, ast.Expr) and isinstance(s.value, ast.Constant))]
+    if e.keywords or not body:
+        return None
+    # `if c: return a` ... `return b`  ==  a if c else b
+    expr = None
+    if isinstance(body[-1], ast.Return) and all(isinstance(x, ast.If) and not x.orelse and len(x.body) == 1 and isinstance(x.body[0], ast.Return) for x in body[:-1]):
+        expr = body[-1].value
+        for x in reversed(body[:-1]):
+            expr = ast.IfExp(test=x.test, body=x.body[0].value, orelse=expr)
+    elif len(body) == 1 and isinstance(body[0], ast.If) and body[0].orelse and len(body[0].body) == 1 and len(body[0].orelse) == 1 \
+            and isinstance(body[0].body[0], ast.Return) and isinstance(body[0].orelse[0], ast.Return):
+        expr = ast.IfExp(test=body[0].test, body=body[0].body[0].value, orelse=body[0].orelse[0].value)
+    if expr is None:
+        return None
+    body = [ast.Return(value=expr)]
+    ps = m.pos_params[1:]
+    if len(ps) != len(e.args):
+        return None
+    sub = dict(zip(ps, e.args))
+
+    class T(ast.NodeTransformer):
+        def visit_Name(self, n):
+            if n.id in sub:
+                return copy.deepcopy(sub[n.id])
+            return n
+    return T().visit(copy.deepcopy(body[0].value))
+
+
+def tree(e, model=None, mod=None, params=(), cls=None):
     """-> nested tuple.  leaves: ('var', name) | ('const', value)"""
     if isinstance(e, ast.Name):
         return ('var', e.id)
@@ -15,12 +52,12 @@ def tree(e, model=None, mod=None, params=()):
         v = e.value
         return ('const', float(v) if isinstance(v, (int, float)) and not isinstance(v, bool) else v)
     if isinstance(e, ast.UnaryOp) and isinstance(e.op, ast.USub):
-        t = tree(e.operand, model, mod, params)
+        t = tree(e.operand, model, mod, params, cls)
         if t[0] == 'const' and isinstance(t[1], float):
             return ('const', -t[1])
         return _mk('mul', t, ('const', -1.0))
     if isinstance(e, ast.BinOp):
-        l, r = tree(e.left, model, mod, params), tree(e.right, model, mod, params)
+        l, r = tree(e.left, model, mod, params, cls), tree(e.right, model, mod, params, cls)
         if isinstance(e.op, ast.Add):
             return _mk('add', l, r)
         if isinstance(e.op, ast.Sub):
@@ -39,22 +76,25 @@ def tree(e, model=None, mod=None, params=()):
         name = (d or dotted(e.func) or '').split('.')[-1]
         full = d or ''
         if full.startswith('synapgrad.functional.') and name in F_OPS:
-            args = [tree(a, model, mod, params) for a in e.args]
+            args = [tree(a, model, mod, params, cls) for a in e.args]
             if name == 'neg':
                 return _mk('mul', args[0], ('const', -1.0))
             if name in COMM:
                 return _mk(name, *args)
             return (name,) + tuple(args)
         if full == 'synapgrad.tensor.Tensor' and e.args:
-            return tree(e.args[0], model, mod, params)      # Tensor(scalar) wrapping keeps the value
-        return ('call', name) + tuple(tree(a, model, mod, params) for a in e.args)
+            return tree(e.args[0], model, mod, params, cls)      # Tensor(scalar) wrapping keeps the value
+        inl = _inline_method(e, model, mod, cls)
+        if inl is not None:
+            return tree(inl, model, mod, params, cls)
+        return ('call', name) + tuple(tree(a, model, mod, params, cls) for a in e.args)
     if isinstance(e, ast.Attribute) and e.attr == 'T':
-        return ('T', tree(e.value, model, mod, params))
+        return ('T', tree(e.value, model, mod, params, cls))
     if isinstance(e, ast.Attribute):
-        return ('attr', tree(e.value, model, mod, params), e.attr)
+        return ('attr', tree(e.value, model, mod, params, cls), e.attr)
     if isinstance(e, ast.IfExp):
         # x if isinstance(x, Tensor) else Tensor(x)  -> x
-        a, b = tree(e.body, model, mod, params), tree(e.orelse, model, mod, params)
+        a, b = tree(e.body, model, mod, params, cls), tree(e.orelse, model, mod, params, cls)
         if a == b:
             return a
         return ('if', norm(e.test), a, b)
